@@ -12,37 +12,39 @@
 (* the model stays sensitive), and the real code replays like "fixed".                                  *)
 EXTENDS Integers, Sequences, TLC
 
-CONSTANTS Variant,          \* "pinned" | "fixed"
+CONSTANTS Variant,          \* "pinned" (upstream) | "marker" (first repair: only the marker is rolled back) | "fixed" (the whole first call is rolled back)
           MaxCalls, MaxK
 
-Faults == {"none", "type", "init", "check", "kind"}
+Faults == {"none", "type", "init", "check", "kind", "late"}
 \* where each fault is detected:  type: isinstance / row-count tests;  init: _initialize (first call only: DPA
 \* non-binary data, undeclared classes out of range, matching before build);  check: _check (template word
 \* count);  kind: consistency tests at the top of the concrete _update (trace length / word count)
 
-VARIABLES pc, call, marker, initd, n, acc, saved, outcome, calls
-vars == <<pc, call, marker, initd, n, acc, saved, outcome, calls>>
+\* late: raised inside _update at any call, also the first (e.g. floating-point intermediate data refused by the class lookup table)
+\* derived: configuration the first call derives from its batch (the automatic class set): 0 = none, else the size of the batch it came from
+VARIABLES pc, call, marker, initd, n, acc, saved, outcome, calls, derived
+vars == <<pc, call, marker, initd, n, acc, saved, outcome, calls, derived>>
 
 Init == /\ pc = "idle" /\ call = [k |-> 0, fault |-> "none", first |-> FALSE]
         /\ marker = FALSE /\ initd = FALSE /\ n = 0 /\ acc = 0
-        /\ saved = [marker |-> FALSE, initd |-> FALSE, n |-> 0, acc |-> 0]
-        /\ outcome = "none" /\ calls = 0
+        /\ saved = [marker |-> FALSE, initd |-> FALSE, n |-> 0, acc |-> 0, derived |-> 0]
+        /\ outcome = "none" /\ calls = 0 /\ derived = 0
 
 Begin(k, f) == /\ pc = "idle" /\ calls < MaxCalls
                /\ (f = "kind" => marker)             \* a shape can only differ from earlier batches
                /\ (f = "init" => ~marker)            \* _initialize only runs on the first call
                /\ call' = [k |-> k, fault |-> f, first |-> ~marker]
-               /\ saved' = [marker |-> marker, initd |-> initd, n |-> n, acc |-> acc]
+               /\ saved' = [marker |-> marker, initd |-> initd, n |-> n, acc |-> acc, derived |-> derived]
                /\ pc' = "typecheck" /\ outcome' = "running" /\ calls' = calls + 1
-               /\ UNCHANGED <<marker, initd, n, acc>>
+               /\ UNCHANGED <<marker, initd, n, acc, derived>>
 
-Goto(l) == pc' = l /\ UNCHANGED <<call, marker, initd, n, acc, saved, outcome, calls>>
+Goto(l) == pc' = l /\ UNCHANGED <<call, marker, initd, n, acc, saved, outcome, calls, derived>>
 
 \* the exception propagates to the caller; "fixed" removes the marker set by this very call
 Raise == /\ pc' = "idle" /\ outcome' = "raised"
-         /\ IF Variant = "fixed" /\ call.first
-            THEN marker' = FALSE /\ initd' = FALSE
-            ELSE UNCHANGED <<marker, initd>>
+         /\ IF Variant \in {"fixed", "marker"} /\ call.first
+            THEN marker' = FALSE /\ initd' = FALSE /\ derived' = (IF Variant = "fixed" THEN saved.derived ELSE derived)
+            ELSE UNCHANGED <<marker, initd, derived>>
          /\ UNCHANGED <<call, n, acc, saved, calls>>
 
 TypeCheck == pc = "typecheck" /\ IF call.fault = "type" THEN Raise ELSE Goto("mark")
@@ -50,11 +52,12 @@ TypeCheck == pc = "typecheck" /\ IF call.fault = "type" THEN Raise ELSE Goto("ma
 MarkShape == /\ pc = "mark"
              /\ IF marker THEN Goto("check")
                 ELSE /\ marker' = TRUE /\ pc' = "init"
-                     /\ UNCHANGED <<call, initd, n, acc, saved, outcome, calls>>
+                     /\ UNCHANGED <<call, initd, n, acc, saved, outcome, calls, derived>>
 
 Initialize == /\ pc = "init"
               /\ IF call.fault = "init" THEN Raise
                  ELSE /\ initd' = TRUE /\ acc' = 0 /\ pc' = "check"
+                      /\ derived' = (IF derived = 0 THEN call.k ELSE derived)
                       /\ UNCHANGED <<call, marker, n, saved, outcome, calls>>
 
 Check == pc = "check" /\ IF call.fault = "check" THEN Raise
@@ -63,18 +66,18 @@ Check == pc = "check" /\ IF call.fault = "check" THEN Raise
 Count == /\ pc = "count"
          /\ n' = n + call.k
          /\ pc' = IF Variant = "pinned" THEN "update" ELSE "done"
-         /\ UNCHANGED <<call, marker, initd, acc, saved, outcome, calls>>
+         /\ UNCHANGED <<call, marker, initd, acc, saved, outcome, calls, derived>>
 
 \* _update: consistency tests first, then the additive accumulation; accumulating into accumulators that were
 \* never created raises (AttributeError in the code)
 Update == /\ pc = "update"
-          /\ IF call.fault = "kind" \/ ~initd THEN Raise
+          /\ IF call.fault \in {"kind", "late"} \/ ~initd THEN Raise
              ELSE /\ acc' = acc + call.k
                   /\ pc' = IF Variant = "pinned" THEN "done" ELSE "count"
-                  /\ UNCHANGED <<call, marker, initd, n, saved, outcome, calls>>
+                  /\ UNCHANGED <<call, marker, initd, n, saved, outcome, calls, derived>>
 
 Done == /\ pc = "done" /\ pc' = "idle" /\ outcome' = "accepted"
-        /\ UNCHANGED <<call, marker, initd, n, acc, saved, calls>>
+        /\ UNCHANGED <<call, marker, initd, n, acc, saved, calls, derived>>
 
 Next == \/ \E k \in 1..MaxK, f \in Faults : Begin(k, f)
         \/ TypeCheck \/ MarkShape \/ Initialize \/ Check \/ Count \/ Update \/ Done
@@ -84,9 +87,10 @@ Spec == Init /\ [][Next]_vars
 \* ---- C16 on the observed (idle) states ------------------------------------------------------------
 Idle == pc = "idle"
 RejectedLeavesNoTrace == (Idle /\ outcome = "raised") =>
-        /\ n = saved.n /\ acc = saved.acc /\ marker = saved.marker /\ initd = saved.initd
+        /\ n = saved.n /\ acc = saved.acc /\ marker = saved.marker /\ initd = saved.initd /\ derived = saved.derived
 AcceptedAccumulates == (Idle /\ outcome = "accepted") =>
         /\ n = saved.n + call.k /\ acc = (IF saved.initd THEN saved.acc ELSE 0) + call.k /\ marker /\ initd
+        /\ derived = (IF saved.derived = 0 THEN call.k ELSE saved.derived)      \* configuration comes from the first ACCEPTED batch
 ValidCallAccepted == (Idle /\ outcome = "raised") => call.fault # "none"
 FaultyCallRaises == (Idle /\ outcome = "accepted") => call.fault = "none"
 CountEqualsAccumulated == Idle => n = acc          \* processed_traces always equals the number of traces summed
